@@ -32,14 +32,15 @@ def tla_bool(b):
     return "TRUE" if b else "FALSE"
 
 
-def cfg_text(sc, fixed, interrupts=True, max_steps=8, mbt=False, revert=True):
+def cfg_text(sc, sw, interrupts=True, max_steps=8, mbt=False, revert=True):
     c = SCEN[sc]
     lines = ["CONSTANTS"]
     for k in ("MaxH", "InitH", "MaxL1", "Retained", "PruneBatch", "L2PerPrune"):
         lines.append("  %s = %d" % (k, c[k]))
     lines += ["  Lag = 10", "  MinAge = %s" % tla_bool(c["MinAge"]), "  MaxSteps = %d" % max_steps,
               "  EnableRevert = %s" % tla_bool(revert), "  EnableInterrupts = %s" % tla_bool(interrupts),
-              "  FixPruneAtomicFloor = %s" % tla_bool(fixed)]
+              "  FixPruneAtomicFloor = %s" % tla_bool(sw["FixPruneAtomicFloor"]),
+              "  FixSampleOnReorg = %s" % tla_bool(sw["FixSampleOnReorg"])]
     if mbt:
         lines += ["INIT MBTInit", "NEXT MBTNext"]
     else:
@@ -69,9 +70,11 @@ def run(ctx):
     thorough = not ctx.quick()
     probe = engine(ctx, binary, "TestPruneProbe", {}, timeout=600)
     ctx.absorb(probe, "prune", "TestPruneProbe")   # directed replays of the confirmed defects
-    fixed = bool(probe.get("stats", {}).get("FixPruneAtomicFloor", False))
-    ctx.coverage["switches_probed_on_code"] = {"FixPruneAtomicFloor": fixed}
-    vlib.log("FixPruneAtomicFloor probed on the real code: %s" % fixed)
+    faithful = {k: bool(probe.get("stats", {}).get(k, False)) for k in ("FixPruneAtomicFloor", "FixSampleOnReorg")}
+    repaired = {k: True for k in faithful}
+    fixed = faithful["FixPruneAtomicFloor"]
+    ctx.coverage["switches_probed_on_code"] = faithful
+    vlib.log("switches probed on the real code: %s" % faithful)
 
     # ---- 1. TLC on the specification (repaired design)
     ctx.tlc_check("chain", "MCPrune.tla", "Prune_quick.cfg", timeout=900)
@@ -84,18 +87,27 @@ def run(ctx):
     if thorough:
         for wname in ("NeverCancelledMidSweep", "NeverCrashedMidSweep", "NeverHeaderPruned", "NeverTimeFloorBinds",
                       "NeverL2PathPrunes"):
-            txt, _ = cfg_text("r1", True, max_steps=6)
+            txt, _ = cfg_text("r1", repaired, max_steps=6)
             txt = txt.split("INVARIANTS")[0] + "INVARIANTS %s\nCHECK_DEADLOCK FALSE\n" % wname
             r = ctx.tlc_check("chain", "MCPrune.tla", "witness.cfg", files={"witness.cfg": txt}, timeout=900,
                               expect_violation=True, label="witness " + wname)
             if r["ok"]:
                 raise vlib.Broken("vacuity: %s is never violated, i.e. the situation is unreachable in the model" % wname)
+    # the faithful model must exhibit each defect the directed replays saw on the code
     if not fixed:
-        r = ctx.tlc_check("chain", "MCPrune.tla", "Prune_faithful.cfg", timeout=900, expect_violation=True,
-                          label="faithful model (expected to violate)")
+        txt, _ = cfg_text("r1", dict(repaired, FixPruneAtomicFloor=False), max_steps=5)
+        r = ctx.tlc_check("chain", "MCPrune.tla", "faithful.cfg", files={"faithful.cfg": txt}, timeout=900,
+                          expect_violation=True, label="faithful model, H12 (expected to violate)")
         if r["ok"]:
             raise vlib.Broken("the faithful model satisfies every invariant although the probe found H12 on the code")
-        ctx.coverage["faithful_model_violates"] = r["violated"]
+        ctx.coverage["faithful_model_violates_h12"] = r["violated"]
+    if not faithful["FixSampleOnReorg"]:
+        txt, _ = cfg_text("r1", dict(repaired, FixSampleOnReorg=False), max_steps=8)
+        r = ctx.tlc_check("chain", "MCPrune.tla", "faithful2.cfg", files={"faithful2.cfg": txt}, timeout=1500,
+                          expect_violation=True, label="faithful model, min-age sample (expected to violate)")
+        if r["ok"] or r["violated"] != "AgeBound":
+            raise vlib.Broken("the faithful model does not violate AgeBound although the probe pruned a young block on the code")
+        ctx.coverage["faithful_model_violates_age"] = r["violated"]
 
     # ---- 2./3. binding
     backends = ["memory", "pebble"] if thorough else ["memory"]
@@ -104,7 +116,7 @@ def run(ctx):
     n_enum = {"r1": 60, "r0": 60, "r3": 40, "r20": 0} if thorough else {"r1": 6, "r0": 6, "r3": 4, "r20": 0}
     total_conf = total_enum = 0
     for i, sc in enumerate(SCEN):
-        txt, c = cfg_text(sc, fixed, interrupts=True, mbt=True)
+        txt, c = cfg_text(sc, faithful, interrupts=True, mbt=True)
         bs = ctx.tlc_simulate("chain", "PruneMBT.tla", "sim.cfg", depth=30 * n_conf[sc], seed=ctx.seed * 100 + i,
                               files={"sim.cfg": txt}, timeout=900, max_behaviours=n_conf[sc])
         total_conf += len(bs)
@@ -113,7 +125,7 @@ def run(ctx):
         ctx.absorb(res, "prune", "TestPruneConform")
         vlib.log("engine TestPruneConform %s: %d behaviours, %.0fs" % (sc, len(bs), res["_wall_s"]))
         if n_enum[sc]:
-            txt, c = cfg_text(sc, fixed, interrupts=False, mbt=True)
+            txt, c = cfg_text(sc, faithful, interrupts=False, mbt=True)
             bs = ctx.tlc_simulate("chain", "PruneMBT.tla", "ops.cfg", depth=30 * n_enum[sc], seed=ctx.seed * 100 + 50 + i,
                                   files={"ops.cfg": txt}, timeout=900, max_behaviours=n_enum[sc])
             bs = [b for b in bs if any(s["a"]["name"] == "PruneStep" for s in b)]
